@@ -33,6 +33,7 @@ type Obligation struct {
 	values     []string
 	probes     []NamedTerm // named terms whose model values explain a counterexample
 	callReplay *callReplay // call-hook obligations: how to replay the call natively
+	raw        string      // lemma over mathematical integers: complete SMT-LIB text (no program state involved)
 	hints      []smt.Term  // sufficient refutations tried when the exact query is undecided (counterexample search)
 	cex        *smt.Term   // refutation under which a counterexample was found (replaces "not goal")
 }
@@ -45,6 +46,9 @@ func (o *Obligation) Query() string {
 }
 
 func (o *Obligation) queryWith(gv []string) string {
+	if o.raw != "" {
+		return o.raw
+	}
 	o.res.mu.Lock()
 	defer o.res.mu.Unlock()
 	if o.cex != nil {
@@ -61,6 +65,9 @@ func (o *Obligation) queryWith(gv []string) string {
 // obligation; any other answer is inconclusive (use Query).  Returns "" when
 // there is nothing to gain.
 func (o *Obligation) WeakQuery() string {
+	if o.raw != "" {
+		return ""
+	}
 	o.res.mu.Lock()
 	defer o.res.mu.Unlock()
 	c, ok := o.weakCase()
@@ -474,7 +481,7 @@ func (e *executor) exitSpec(fr *frame, out *State, ret smt.Term, ref FunctionalR
 		if !(mem.Base.S == e.res.pkt0.S && len(mem.Ov) == 0) {
 			outArr = e.flush(mem).Base
 		}
-		extra := map[string]vsVal{"ret": {retT, 32}, "outlen": {ls.pktLen, 64}}
+		extra := map[string]vsVal{"ret": mkv(retT, 32), "outlen": mkv(ls.pktLen, 64)}
 		fs, err := e.loadFuncSpec(ref.File, extra, &hookCtx{outArr: outArr, outMem: mem})
 		if err != nil {
 			return err
@@ -507,6 +514,10 @@ func (e *executor) exitSpec(fr *frame, out *State, ret smt.Term, ref FunctionalR
 				cl := &State{pc: smt.True}
 				e.oblige(fr, cl, ref.Kind, "cases cover the scope", smt.Implies(fs.Scope, smt.Or(cs...)), "the case split of "+filepath.Base(fs.File)+" is exhaustive")
 			}
+		}
+		if !coverDone["math:"+ref.File] {
+			coverDone["math:"+ref.File] = true
+			e.mathObligations(fr, ref, fs, "")
 		}
 		for _, c := range fs.Contracts {
 			goal := smt.Implies(fs.Scope, c.T)
@@ -876,13 +887,13 @@ func Solve(obligs []*Obligation, solver *smt.Solver, workers int) []Solved {
 			out[i].Status, out[i].Solver = "unsat", "syntactic"
 			continue
 		}
-		weakable := !NoWeakQueries && (o.Kind == "inbounds" || o.Kind == "divzero" || o.Kind == "helperarg" || o.callReplay != nil || len(o.probes) > 0)
+		weakable := o.raw == "" && !NoWeakQueries && (o.Kind == "inbounds" || o.Kind == "divzero" || o.Kind == "helperarg" || o.callReplay != nil || len(o.probes) > 0)
 		if !weakable {
 			flush()
 			jobs <- job{[]int{i}, "", false}
 			continue
 		}
-		if o.callReplay != nil || len(o.probes) > 0 {
+		if o.raw == "" && (o.callReplay != nil || len(o.probes) > 0) {
 			flush()
 			w := weakGroup([]*Obligation{o})
 			if len(w) > MaxQueryBytes {
@@ -943,3 +954,27 @@ type callArg struct {
 }
 
 var debugNoMute = false
+
+// mathObligations records the lemmas over mathematical integers of a
+// specification file (they do not depend on the program state).
+func (e *executor) mathObligations(fr *frame, ref FunctionalRef, fs *FuncSpec, tag string) {
+	if e.mute > 0 {
+		return
+	}
+	kind := ref.MathKind
+	if kind == "" {
+		kind = ref.Kind + "_math"
+	}
+	for _, ml := range fs.Math {
+		desc := tag + ml.Name
+		id := fmt.Sprintf("%s.%s.%s.%s[%s]", e.opts.Property, e.mod.Base, e.fn.Name, kind, desc)
+		if n := e.ids[id]; n > 0 {
+			e.ids[id] = n + 1
+			id = fmt.Sprintf("%s.%s.%s.%s[%s~%d]", e.opts.Property, e.mod.Base, e.fn.Name, kind, desc, n)
+		} else {
+			e.ids[id] = 1
+		}
+		e.res.Obligations = append(e.res.Obligations, &Obligation{ID: id, Kind: kind, Func: e.fn.Name, Desc: desc,
+			Source: "lemma over mathematical integers about the definitions of " + filepath.Base(fs.File), res: e.res, raw: ml.Query, goal: smt.False, pc: smt.True})
+	}
+}
